@@ -101,6 +101,7 @@ def generate(ck):
                 "table": str(rng.choice(["haynesville", "pvt_gas"])),
                 "p_i_at": [None, "top", None, "row", None][i % 5],
                 "n_blank_gas": [0, 3, 0, 1][i % 4],
+                "alpha_column": bool(i % 3 == 1),
             }
         )
     return descs
@@ -125,6 +126,11 @@ def run_case(ck, desc):
 
     rng = np.random.default_rng(desc["seed"])
     pvt = tables.shipped(desc["table"])
+    if desc.get("alpha_column"):
+        # a table that brings its own hydraulic diffusivity ("alpha" - documented and honoured by
+        # FlowProperties): the fit's forward model is FlowProperties on THIS table, alpha included
+        pvt = pvt.assign(alpha=1.3 / (pvt["compressibility"] * pvt["viscosity"]) * (1 + 0.2 * pvt["pressure"] / pvt["pressure"].max()))
+        ck.count("tables_with_a_user_diffusivity_column")
     n = desc["rows"]
     days = np.arange(n)
     pf = np.empty(n)
